@@ -570,6 +570,7 @@ def partition(feed, top, bottom, IDs, K, phi=None, top_chemicals=None,
         handle_infeasible_flow_rates(bottom_mol, mol, strict, stacklevel+1)
         bottom.imol[IDs] = bottom_mol
     else:
+        bottom.imol[IDs] = 0.
         phi = 1.        
     top.mol[:] = feed_mol - bottom.mol
     return phi
